@@ -21,26 +21,28 @@ type RunConfig struct {
 	FastSyncLate  bool     `json:"fast_sync_late"`
 
 	// fault rates (per tick leg / per step)
-	PDropReq   float64 `json:"p_dropreq"`
-	PDropResp  float64 `json:"p_dropresp"`
-	PLate      float64 `json:"p_late"`
-	PPartition float64 `json:"p_partition"`
-	PSilence   float64 `json:"p_silence"`
-	PSyncLimit float64 `json:"p_synclimit"`
-	PClock     float64 `json:"p_clock"`
-	PSubmit    float64 `json:"p_submit"`
-	PAdvance   float64 `json:"p_advance"`
-	PCrash     float64 `json:"p_crash"`
-	PJoin      float64 `json:"p_join"`
-	PLeave     float64 `json:"p_leave"`
-	PByz       float64 `json:"p_byz"`
-	MaxJoins   int     `json:"max_joins"`
-	MaxLeaves  int     `json:"max_leaves"`
-	Liars      int     `json:"liars"`
-	TxStyle    string  `json:"tx_style"` // "unique" | "mixed"
-	FairSuffix bool    `json:"fair_suffix"`
-	Shadow     int     `json:"shadow"` // shadow-bootstrap checks per run (C11)
-	TornP      float64 `json:"torn_p"`
+	PDropReq      float64 `json:"p_dropreq"`
+	PDropResp     float64 `json:"p_dropresp"`
+	PLate         float64 `json:"p_late"`
+	PPartition    float64 `json:"p_partition"`
+	PSilence      float64 `json:"p_silence"`
+	PSyncLimit    float64 `json:"p_synclimit"`
+	PClock        float64 `json:"p_clock"`
+	PSubmit       float64 `json:"p_submit"`
+	PAdvance      float64 `json:"p_advance"`
+	PCrash        float64 `json:"p_crash"`
+	PJoin         float64 `json:"p_join"`
+	PLeave        float64 `json:"p_leave"`
+	PByz          float64 `json:"p_byz"`
+	MaxJoins      int     `json:"max_joins"`
+	MaxLeaves     int     `json:"max_leaves"`
+	Liars         int     `json:"liars"`
+	Byz           int     `json:"byz"`
+	PCommitSubmit float64 `json:"p_commit_submit"`
+	TxStyle       string  `json:"tx_style"` // "unique" | "mixed"
+	FairSuffix    bool    `json:"fair_suffix"`
+	Shadow        int     `json:"shadow"` // shadow-bootstrap checks per run (C11)
+	TornP         float64 `json:"torn_p"`
 
 	FullReread   bool `json:"full_reread"`
 	TracePerStep bool `json:"-"`
@@ -266,6 +268,9 @@ func (c *Cluster) genStep(g *genState) *Step {
 		}
 	}
 	a := alive[r.Intn(len(alive))]
+	if c.cfg.Byz > 0 && len(alive) > 1 {
+		// silent Byzantine identities never tick; nothing to do here
+	}
 	st := &Step{Op: "tick", A: a.idx, B: -1}
 	switch a.state() {
 	case _state.Babbling:
